@@ -294,6 +294,10 @@ def run_check(prop, tier, seed):
             print('HARNESS-ERROR in shard %r:\n%s' % (e['shard'], e['error']))
         return 2
 
+    if os.environ.get('VERIF_DEBUG'):
+        for r in sorted(results, key=lambda r: -r.get('wall', 0))[:8]:
+            print('shard %.1fs %s' % (r.get('wall', 0),
+                                      str(r.get('shard'))[:150]))
     evals = sum(r['evals'] for r in results)
     nt = set()
     for r in results:
